@@ -3,14 +3,12 @@
 package main
 
 import (
-	"context"
 	"errors"
 
 	"github.com/gagliardetto/solana-go"
 	"github.com/ipfs/go-cid"
 	"github.com/rpcpool/yellowstone-faithful/blocktimeindex"
 	cidlink "github.com/ipld/go-ipld-prime/linking/cid"
-	"github.com/rpcpool/yellowstone-faithful/compactindexsized"
 	"github.com/rpcpool/yellowstone-faithful/ipld/ipldbindcode"
 	"github.com/rpcpool/yellowstone-faithful/iplddecoders"
 )
@@ -153,58 +151,10 @@ func (st *verifC03Store) pick(name string, kind int, same func(o *verifC03Obj) b
 	return hit
 }
 
-// model of (*Epoch).FindCidFromSlot (cache + slot-to-cid index); the real one is renamed.
-func (ser *Epoch) FindCidFromSlot(ctx context.Context, slot uint64) (cid.Cid, error) {
-	st := verifC03Stores[ser]
-	for _, m := range st.s2c {
-		if m.slot == slot {
-			return st.answer(m.hit)
-		}
-	}
-	hit := st.pick("slot2cid", verifC03KindBlock, func(o *verifC03Obj) bool { return o.slot == slot })
-	st.s2c = append(st.s2c, verifC03Memo{slot: slot, hit: hit})
-	return st.answer(hit)
-}
-
-// model of (*Epoch).FindCidFromSignature (sig-to-cid index); the real one is renamed.
-func (ser *Epoch) FindCidFromSignature(ctx context.Context, sig solana.Signature) (cid.Cid, error) {
-	st := verifC03Stores[ser]
-	for _, m := range st.g2c {
-		if m.sig == sig {
-			return st.answer(m.hit)
-		}
-	}
-	hit := st.pick("sig2cid", verifC03KindTx, func(o *verifC03Obj) bool { return o.sig == sig })
-	st.g2c = append(st.g2c, verifC03Memo{sig: sig, hit: hit})
-	return st.answer(hit)
-}
-
-func (st *verifC03Store) answer(hit int) (cid.Cid, error) {
-	if hit < 0 {
-		return cid.Undef, compactindexsized.ErrNotFound
-	}
-	return st.objs[hit].c, nil
-}
-
-// model of (*Epoch).GetNodeByCid: the bytes stored under exactly that CID (justified by C03.cid).
-// The node bytes of the model are {kind, index of the object in the epoch's store}.
-func (s *Epoch) GetNodeByCid(ctx context.Context, wantedCid cid.Cid) ([]byte, error) {
-	st := verifC03Stores[s]
-	for i, o := range st.objs {
-		if o.c.Equals(wantedCid) {
-			return []byte{byte(o.kind), byte(i), byte(s.epoch)}, nil
-		}
-	}
-	return nil, errors.New("verif model: no object with this CID in the epoch")
-}
-
-// model of (*Epoch).prefetchSubgraph: cache warm-up only, no effect on the answer.
-func (s *Epoch) prefetchSubgraph(ctx context.Context, wantedCid cid.Cid) error { return nil }
-
 var verifC03EpochByNum = map[uint64]*Epoch{}
 
 func verifC03ObjOf(data []byte, kind int) (*verifC03Obj, error) {
-	if len(data) != 3 || int(data[0]) != kind {
+	if len(data) < 3 || int(data[0]) != kind {
 		return nil, errors.New("verif model: node is not of the expected kind")
 	}
 	e := verifC03EpochByNum[uint64(data[2])]
